@@ -253,7 +253,7 @@ func TestSelfEmphasisReference(t *testing.T) {
 var emphToks = []string{"a", "b", "foo", "bar", "1", " ", " ", "*", "*", "**", "***", "****", "_", "_", "__", "___", ".", ",", "!", "(", ")", "-", "\"", "'", "+", "$", ":", "a*", "*a", "_a", "a_", "*_", "_*", "**_", "a**b", "a_b", "(*", "*)", "_(", ")_"}
 
 func TestEmphasisSoup(t *testing.T) {
-	kit.Rapid(t, "emphasis", 200000, 3000000, func(t *rapid.T) {
+	kit.Rapid(t, "emphasis", 200000, 12000000, func(t *rapid.T) {
 		idx := rapid.SliceOfN(rapid.IntRange(0, len(emphToks)-1), 1, 14).Draw(t, "toks")
 		var sb strings.Builder
 		for _, i := range idx {
